@@ -1436,7 +1436,22 @@ where
                 } else {
                     Cow::Owned(env::current_dir()?.join(dname))
                 };
-                helpers::normpath(&dname).into_owned()
+                // Part of the directory does not exist (yet). Resolve symbolic links
+                // in the part that does, like realpath(3) on most platforms, so that
+                // the name does not change once the rest has been created.
+                let mut resolved = None;
+                for prefix in dname.ancestors().skip(1) {
+                    match prefix.canonicalize() {
+                        Ok(mut real) => {
+                            real.push(dname.strip_prefix(prefix).unwrap());
+                            resolved = Some(real);
+                            break;
+                        }
+                        Err(e) if e.kind() == io::ErrorKind::NotFound => continue,
+                        Err(e) => return Err(e),
+                    }
+                }
+                helpers::normpath(resolved.as_deref().unwrap_or(&dname)).into_owned()
             }
             Err(e) => return Err(e),
         };
